@@ -1,7 +1,7 @@
 (* PipelineFacts.v -- lemmas about the whole-program model coq/Pipeline.v
    (statements in Prop_C17_pipeline.v). *)
 From Coq Require Import ZArith List Bool Ascii String Lia ZifyBool.
-From Cnfgen Require Import Sem Comb Linear IR Text Dimacs Cli GraphSpec GraphIO Subst FamTab FamFast
+From Cnfgen Require Import Sem Comb Linear IR Text Dimacs OpbText OpbTextFacts Cli GraphSpec GraphIO Subst FamTab FamFast
      Fam_php Fam_count Fam_cliquecol Fam_subsetcard C02Common Fam_tseitin Fam_coloring Fam_domset Fam_subgraph
      C03_Util Fam_ordering Fam_ramsey Fam_cpls Fam_pebbling PipelineGraph.
 From Cnfgen Require Import SemFacts IRFacts IRRange SubstFacts DimacsFacts EndToEnd CliFacts FamFastFacts
@@ -511,16 +511,24 @@ Proof.
   - destruct (gs_mem name pl_other_formulas); discriminate.
 Qed.
 
-Lemma pl_parse_main_wf : forall toks q v o g, pl_parse_main q v toks = PlOk (o, Some g) -> pl_cmd_wf g.
+Lemma pl_parse_main_wf : forall toks q v b o g, pl_parse_main q v b toks = PlOk (o, Some g) -> pl_cmd_wf g.
 Proof.
-  induction toks as [|t r IH]; intros q v o g; cbn [pl_parse_main]; [discriminate|].
+  intros toks. remember (List.length toks) as k eqn:Hk. revert toks Hk.
+  induction k as [k IHk] using lt_wf_ind. intros toks Hk q v b o g.
+  destruct toks as [|t r]; cbn [pl_parse_main]; [discriminate|]. cbn [List.length] in Hk.
   destruct (_ || _).
-  - destruct v; [discriminate|apply IH].
+  - destruct v; [discriminate|]. apply (IHk (List.length r)); [lia|reflexivity].
   - destruct (_ || _).
-    + destruct q; [discriminate|apply IH].
-    + destruct (pl_starts_dash t); [discriminate|].
-      destruct (pl_parse_formula t r) as [c| |] eqn:E; try discriminate.
-      intros H. inversion H; subst. now apply (pl_parse_formula_wf t r).
+    + destruct q; [discriminate|]. apply (IHk (List.length r)); [lia|reflexivity].
+    + destruct (_ || _).
+      * destruct r as [|f r']; [discriminate|]. cbn [List.length] in Hk.
+        destruct (pl_starts_dash f); [discriminate|].
+        destruct (gs_teqb f (lit "dimacs")); [apply (IHk (List.length r')); [lia|reflexivity]|].
+        destruct (gs_teqb f (lit "opb")); [apply (IHk (List.length r')); [lia|reflexivity]|].
+        destruct (gs_teqb f (lit "latex")); discriminate.
+      * destruct (pl_starts_dash t); [discriminate|].
+        destruct (pl_parse_formula t r) as [c| |] eqn:E; try discriminate.
+        intros H. inversion H; subst. now apply (pl_parse_formula_wf t r).
 Qed.
 
 Theorem pl_parse_chunks_wf chunks c g : pl_parse_chunks chunks = PlOk c -> pl_gen c = Some g -> pl_cmd_wf g.
@@ -528,7 +536,7 @@ Proof.
   destruct chunks as [|c0 rest]; cbn [pl_parse_chunks]; [discriminate|].
   destruct (pl_parse_chunk0 c0) as [[o g0]| |] eqn:E0; try discriminate.
   destruct (pl_parse_tchunks rest); try discriminate. intros H. inversion H; subst. cbn [pl_gen]. intros ->.
-  unfold pl_parse_chunk0 in E0. destruct (negb _); [discriminate|]. now apply (pl_parse_main_wf c0 false false o).
+  unfold pl_parse_chunk0 in E0. destruct (negb _); [discriminate|]. now apply (pl_parse_main_wf c0 false false false o).
 Qed.
 
 Theorem pl_run_good c : (forall g, pl_gen c = Some g -> pl_cmd_wf g) -> pl_good (pl_run_with pl_build c).
@@ -563,18 +571,36 @@ Proof.
   - right; right; reflexivity.
 Qed.
 
+Lemma opb_roundtrip_cnf_hypotheses_local n F : valid n F -> printable n -> printable (len F) ->
+  opb_valid (FCnf n F) /\ opb_printable (FCnf n F).
+Proof. intros V Pn Pm. exact (conj (cnf_opb_valid n F V) (cnf_opb_printable n F Pn Pm)). Qed.
+
+(* a strict reader of the chosen format gets the formula back *)
+Definition pl_reads_back (opb : bool) (text : text) (n : Z) (F : cnf) : Prop :=
+  if opb then parse_opb text = OOk n (map clause_pbc F)
+  else forall u, parse_dimacs u text = DOk n F.
+
+Lemma pl_write_reads_back opb h n F : 0 <= n -> lits_in_range n F = true -> printable n -> printable (len F) ->
+  pl_reads_back opb (pl_write opb h n F) n F.
+Proof.
+  intros Hn HR P1 P2. unfold pl_reads_back, pl_write. destruct opb.
+  - destruct (opb_roundtrip_cnf_hypotheses_local n F (in_range_valid n F Hn HR) P1 P2) as [V P].
+    exact (opb_roundtrip_proved h None (FCnf n F) V P).
+  - intros u. now apply in_range_roundtrip.
+Qed.
+
 (* what is written is a DIMACS text of the formula, and a strict reader gets the formula back *)
 Theorem cnfgen_main_roundtrip argv text :
   cnfgen_main argv = POut text ->
-  exists n F, pl_formula argv = FrOk n F /\ text = print_dimacs None None n F /\
+  exists n F, pl_formula argv = FrOk n F /\ text = pl_write (pl_opb_of argv) None n F /\
               0 <= n /\ lits_in_range n F = true /\
-              (printable n -> printable (len F) -> forall u, parse_dimacs u text = DOk n F).
+              (printable n -> printable (len F) -> pl_reads_back (pl_opb_of argv) text n F).
 Proof.
   unfold cnfgen_main. destruct (pl_formula argv) as [n F| | |] eqn:E; cbn [pl_render]; try discriminate.
   destruct (pl_quiet_of argv); [|discriminate]. intros H. inversion H; subst.
   destruct (pl_formula_in_range argv n F E) as [Hn HR].
   exists n, F. repeat split; try assumption.
-  intros P1 P2 u. now apply in_range_roundtrip.
+  intros P1 P2. now apply pl_write_reads_back.
 Qed.
 
 (* cnfgen_main depends on argv through its chunks only *)
